@@ -35,17 +35,21 @@ def make_case(seed, shard, i):
     r = random.Random(f"{seed}:C09:{shard}:{i}")
     n = r.choice([1, 2, 2, 3, 4])
     members = []
+    headerless = r.random() < 0.2
     for j in range(n):
         g = lang.Gen(r, FEATURES)
-        prog = lang.tolist(g.program(ncomp=r.randint(1, 4)))
-        extra = ""
+        prog = g.program(ncomp=r.randint(1, 4), scan=r.choice(lang.HEADERLESS_SCANS) if headerless else None)
+        if headerless:
+            prog["comps"] = [lang.index_headers(c) for c in prog["comps"]]
+        prog = lang.tolist(prog)
+        extra = lang.random_mode_comment(r, 0.3, allow=("return-mode", "validation-mode"))
         if r.random() < 0.35:
             extra += "unmatched-mode: keep "
         if r.random() < 0.4:
             prog["comps"].append(["fn", "print", [["str", r.choice(["to named $.csvpath.line_number", "n: $.headers.c", "plain text"])], ["str", r.choice(["audit", "report"])]], []])
         ident = f"m{j}" if r.random() < 0.55 else None
         members.append({"prog": prog, "ident": ident, "extra": extra})
-    rows = lang.data_rows(r)
+    rows = lang.data_rows(r, header_prob=0.0 if headerless else 0.85)
     for row in rows:
         for k in (2, 3):
             if len(row) > k and r.random() < 0.35:
